@@ -48,7 +48,9 @@ def run(ctx: Ctx):
     for mname in ("monitor_values", "missing_values"):
         g = util.nff(ctx, cgc.methods[mname])
         tc = util.template_method_call(g)
-        ctx.require(tc, f"CodeGenerator.{mname}: template.method call not found")
+        if tc is None:
+            ctx.undecided("R14.b", g.key("allocation"), f"CodeGenerator.{mname}: the template.method(...) call is not found in the method's normal form; the allocation is not judged", g.where())
+            continue
         vt = const_str(util.canon_of(g).resolve(call_kw(tc, "values_type"))) if call_kw(tc, "values_type") is not None else None
         si = call_kw(tc, "shape_info")
         src = util.ctext(g, si) if si is not None else None
@@ -58,7 +60,9 @@ def run(ctx: Ctx):
     for mname in ("rhs", "scheme"):
         g = util.nff(ctx, cgc.methods[mname])
         tc = util.template_method_call(g)
-        ctx.require(tc, f"CodeGenerator.{mname}: template.method call not found")
+        if tc is None:
+            ctx.undecided("R14.b", g.key("allocation"), f"CodeGenerator.{mname}: the template.method(...) call is not found in the method's normal form; the allocation is not judged", g.where())
+            continue
         vt = call_kw(tc, "values_type")
         si = call_kw(tc, "shape_info")
         vtx = util.ctext(g, vt) if vt is not None else ""
